@@ -134,6 +134,8 @@ def gen_case(rng, size=1.0):
     unphase = rng.choice(["cli", "cli", "cli", "partial", "partial", "none"])
     hist = {"source": source, "unphase": unphase, "foreign": unphase == "partial" and rng.random() < 0.4,
             "keep": {s: {c: [rng.random() < 0.35 for _ in variants[c]] for c in contigs} for s in samples}}
+    if multi and rng.random() < 0.2:
+        hist["no_mav"] = True          # haplotagphase --no-mav: multi-allelic records are neither read nor written
     if source == "custom":
         # true haplotypes; blocks end at the gaps (and sometimes elsewhere: then reads overlap two phase sets);
         # arbitrary phase set ids, arbitrary orientation per block
